@@ -37,6 +37,7 @@ RangeOf(s) == { s[i] : i \in DOMAIN s }
 \* index sets arrive as JSON arrays
 OpOf(o) == CASE o.name = "remove" -> [o EXCEPT !.idx = RangeOf(@)]
              [] o.name = "fn_remove" -> [o EXCEPT !.idx = RangeOf(@)]
+             [] o.name = "fn_remove_keep" -> [o EXCEPT !.idx = RangeOf(@)]
              [] o.name = "keep" -> [o EXCEPT !.labels = RangeOf(@)]
              [] OTHER -> o
 
